@@ -428,3 +428,65 @@ def s18_source_tables(ctx):
     r.floor('Source variants', 8, len(variants))
     r.floor('from_str literals', 9, len(F))
     return r
+
+
+def s18b_clv_zero_range(ctx):
+    """clv is 0 exactly on a zero range: the constant-zero answer is selected by an exact equality of high and low."""
+    f = ctx.facts('default')
+    m = Model(f)
+    r = RuleResult('S18b', 'OHLCV::clv answers the constant 0 exactly under the exact test high == low (or high - low == 0) and divides by '
+                           'high - low otherwise')
+    ohlcv = f.traits[T_OHLCV]
+    cp = [it['path'] for it in ohlcv['items'] if it['name'] == 'clv']
+    if not cp:
+        raise Broken('OHLCV::clv not found')
+    b = m.body(cp[0], prefer_mono=False)
+    if b is None:
+        raise Broken('no body for OHLCV::clv')
+
+    def acc(t):
+        t = _strip(t)
+        if t[0] == 'call' and len(t[2]) == 1 and _strip(t[2][0])[0] == 'arg':
+            return t[4].rsplit('::', 1)[-1]
+        return None
+
+    def is_range(t):
+        t = _strip(t)
+        return t[0] == 'bin' and t[1] == 'Sub' and acc(t[2]) == 'high' and acc(t[3]) == 'low'
+
+    nz = nd = 0
+    for pf in all_path_facts(b):
+        if not pf.returns:
+            continue
+        ret = _strip(pf.ret) if pf.ret else None
+        exact = None     # truth of the exact zero-range test on this path
+        other_tests = 0
+        for d, vals, blk, allv in pf.decisions:
+            truth = not (vals != 'otherwise' and 0 in vals)
+            if d[0] == 'bin' and d[1] in ('Eq', 'Ne'):
+                x, y = d[2], d[3]
+                hit = ({acc(x), acc(y)} == {'high', 'low'}) or (is_range(x) and _strip(y)[0] == 'const' and _strip(y)[2] == 0.0) or \
+                      (is_range(y) and _strip(x)[0] == 'const' and _strip(x)[2] == 0.0)
+                if hit:
+                    exact = truth if d[1] == 'Eq' else (not truth)
+                    continue
+            other_tests += 1
+        key = 'clv|%s' % ('zero-range' if exact else 'formula')
+        r.inst(key)
+        if ret is not None and ret[0] == 'const' and ret[2] == 0.0:
+            nz += 1
+            if exact is not True:
+                r.violate('clv|zero-without-exact-test', 'clv() returns the constant 0 on a path that is not selected by the exact test high == low: a candle '
+                          'with a tiny non-zero range gets 0 instead of its formula value', b.file, b.line)
+        else:
+            nd += 1
+            if exact is not False or other_tests:
+                r.violate('clv|formula-path-guard', 'the formula path of clv() is not exactly the complement of high == low', b.file, b.line)
+            if not (ret is not None and ret[0] == 'bin' and ret[1] == 'Div' and is_range(ret[3])):
+                r.violate('clv|formula-divisor', 'clv() does not divide by high - low', b.file, b.line)
+            else:
+                r.sample({'path': 'formula', 'returns': tree_str(ret)[:100]})
+    if nz != 1 or nd != 1:
+        r.violate('clv|shape', 'clv() has %d constant-zero and %d formula paths (expected 1 and 1)' % (nz, nd), b.file, b.line)
+    r.floor('clv paths', 2, nz + nd)
+    return r
